@@ -192,8 +192,11 @@ def buildCfg (nodes : List Node) (predefined : Option (List (W String))) : Excep
   let calls := (predefined.getD []).foldl addName (callNames nodes)
   let jumps := jumpNames nodes
   let loads := loadNames nodes
-  -- call_names ∪ jump_names ∪ load_names, tokens of the first set that has the name
-  let used := loads.foldl addName (jumps.foldl addName calls)
+  -- call_names ∪ jump_names ∪ load_names. `HashSet::union` iterates the *larger* set first, so
+  -- for a name in both sets the token of the larger set is the one that is kept.
+  let union (a b : List (W String)) : List (W String) :=
+    if a.length ≥ b.length then b.foldl addName a else a.foldl addName b
+  let used := union (union calls jumps) loads
   let undefined := used.filter fun w => !nameIn labelNs w.val
   if !undefined.isEmpty then throw (.labelsNotDefined undefined)
   let mut st : BuildSt := {}
